@@ -182,6 +182,58 @@ func HarnessC07Decorated() {
 	})
 }
 
+// HarnessC07DecoratedCancel: cancelling the context of a subscription made through 1..2 decorators closes the
+// decorated output channel (also when a delivered message sits there unread), leaves no pump behind, and a
+// later Close still returns.
+func HarnessC07DecoratedCancel() {
+	g := NewGoChannel(Config{}, watermill.NopLogger{})
+	depth := vrt.Int("depth", 1, 2)
+	var sub message.Subscriber = g
+	for i := 0; i < depth; i++ {
+		s, err := message.MessageTransformSubscriberDecorator(func(m *message.Message) {})(sub)
+		vrt.Assert(err == nil, "decorated")
+		sub = s
+	}
+	ctx, cancel := context.WithCancel(context.Background())
+	ch, err := sub.Subscribe(ctx, "t")
+	vrt.Assert(err == nil, "subscribe")
+	if vrt.Bool("message.in.flight") {
+		vrt.Assert(g.Publish("t", newMsg(0)) == nil, "publish") // nobody reads it
+	}
+	cancel()
+	for range ch {
+		// main must get out of this loop: cancelling the subscription's context closes the decorated output channel
+	}
+	vrt.Assert(sub.Close() == nil, "a later Close returns")
+	vrt.AtQuiescence(func() {
+		vrt.Assert(vrt.Live("message.(*messageTransformSubscriberDecorator)") == 0, "and no decorator goroutine remains")
+	})
+}
+
+// HarnessC07ClosePublishSubscribe: blocking mode; a Publish waits for the ack of a message its subscriber holds
+// unsettled, a Subscribe arrives meanwhile, then Close: Close returns, Publish and Subscribe return.
+func HarnessC07ClosePublishSubscribe() {
+	g := NewGoChannel(Config{BlockPublishUntilSubscriberAck: true, Persistent: vrt.Bool("persistent")}, watermill.NopLogger{})
+	ch, err := g.Subscribe(context.Background(), "t")
+	vrt.Assert(err == nil, "subscribe")
+	held := make(chan struct{})
+	go func() {
+		vrt.MayBlock()
+		<-ch // received and never settled
+		close(held)
+	}()
+	go func() {
+		vrt.MustFinish()
+		_ = g.Publish("t", newMsg(0)) // returns when the Pub/Sub is closed
+	}()
+	<-held
+	go func() {
+		vrt.MustFinish()
+		_, _ = g.Subscribe(context.Background(), "t") // succeeds or reports "closed": it returns
+	}()
+	vrt.Assert(g.Close() == nil, "Close returns although a Publish waits for an ack and a Subscribe is queued behind it")
+}
+
 // HarnessC07DecoratorShared: one decorator value wraps two Pub/Subs (what Router.AddSubscriberDecorators does for
 // every handler): closing one of them leaves the other working, and closing the other afterwards terminates.
 func HarnessC07DecoratorShared() {
